@@ -138,6 +138,34 @@ def run(ctx):
     flag = [(d, vals, other, excl) for d, vals, other, excl, _b in conds if d[0] == "phi" and ft.fn["locals"][d[3]]["ty"] == "bool"]
     flag = [f for f in flag if (f[2] and 0 in f[3]) or (f[1] and 0 not in f[1])]
     flag = flag[:1]  # nearest dominating boolean flag (conditions are listed innermost first)
+    extra_false = []
+    if len(flag) != 1:
+        # the decision may travel as an Option (`Some(size)` kept only if the group is complete): the push is then
+        # guarded by "is Some", and the single place that builds the Some is itself guarded by the boolean verdict
+        for d, vals, other_, excl, _b in conds:
+            if d[0] == "discr" and d[1][0] == "phi" and d[1][1] == ft.path and vals == [1] and not other_:
+                lv = []
+
+                def opt_leaves(t_, seen_):
+                    if t_ in seen_:
+                        return
+                    seen_.add(t_)
+                    for p_, v_ in ft.phi_operands(t_).items():
+                        if v_[0] == "phi":
+                            opt_leaves(v_, seen_)
+                        else:
+                            lv.append((p_, v_))
+                opt_leaves(d[1], set())
+                somes = [(p_, v_) for p_, v_ in lv if v_[0] == "agg" and v_[1] == "adt" and v_[2].endswith("::Some")]
+                nones = [(p_, v_) for p_, v_ in lv if v_[0] == "agg" and v_[1] == "adt" and v_[2].endswith("::None")]
+                if len(somes) == 1 and len(somes) + len(nones) == len(lv):
+                    c2 = ft.conditions(somes[0][0])
+                    f2 = [(d2, v2, o2, e2) for d2, v2, o2, e2, _b2 in c2 if d2[0] == "phi" and ft.fn["locals"][d2[3]]["ty"] == "bool"]
+                    f2 = [f_ for f_ in f2 if (f_[2] and 0 in f_[3]) or (f_[1] and 0 not in f_[1])]
+                    if f2:
+                        flag = f2[:1]
+                        extra_false = [(p_, ("const", "int", 0, None, "bool")) for p_, _v in nones]
+                break
     if len(flag) != 1:
         run.bad("C08.K2", "parent-push-guard", "parent push is not guarded by a single boolean all-siblings flag (conditions: %s)" % [fmt(d) for d, *_ in conds], where(pp.span))
         return
@@ -155,6 +183,7 @@ def run(ctx):
                 else:
                     leaves.append((p, v))
     collect_leaves(fl, set())
+    leaves += extra_false
     trues = [(p, v) for p, v in leaves if const_int(v) == 1]
     falses = [(p, v) for p, v in leaves if const_int(v) == 0]
     other = [(p, v) for p, v in leaves if const_int(v) not in (0, 1)]
@@ -206,7 +235,8 @@ def run(ctx):
                 if r is None or r[1] is None or clos[0] != "agg" or clos[1] != "closure":
                     continue
                 fcl = fn_terms(facts, clos[2])
-                rts = [closure_subst(facts, clos[2], fcl.return_term(rb)) for rb in fcl.return_blocks()]
+                from ..query import closure_subst_caps
+                rts = [closure_subst_caps(clos[3], fcl.return_term(rb)) for rb in fcl.return_blocks()]
                 if len(rts) != 1 or rts[0] is None:
                     continue
                 e_ = as_equality(rts[0])
@@ -224,6 +254,8 @@ def run(ctx):
         run.inst("C08.K2", "flag-is-all-result", (not other2 and len(other) >= 1) or direct,
                  "the all-siblings condition is false or the result of the all() over the run", where(all_call.span))
     # E: the run length, count = E - 1
+    from ..query import simplify_payloads
+    count = simplify_payloads(count)
     cco, ck = linear(count)
     cco = {a: c for a, c in cco.items() if c != 0}
     e_atoms = [a for a, c in cco.items() if c == 1]
